@@ -1,12 +1,25 @@
 #!/bin/bash
-# re-run every kept seeded change against the current checks (quick tier)
+# re-run every kept seeded change against the current checks (quick tier);
+# four groups of properties in parallel (seeds of one property run one after
+# the other: a check's scratch files are per check and shard)
+# usage: tools/rerun_seeded.sh [C01 C02 ...]
 cd /verif
-for d in seeded/*/; do
-  /venv/bin/python tools/try_seeded.py $d --skip-tests | /venv/bin/python -c "
+run_group() {
+  for p in "$@"; do
+    for d in seeded/$p-*/; do
+      /venv/bin/python tools/try_seeded.py $d --skip-tests | /venv/bin/python -c "
 import sys, json
 for l in sys.stdin:
     try: r = json.loads(l)
     except Exception: continue
     print(r['seeded'], 'applies' if r.get('applies') else 'NOAPPLY', 'CAUGHT' if r.get('caught') else 'MISSED rc=%s' % r.get('check_rc'), r.get('check_wall'))
 "
-done
+    done
+  done
+}
+if [ $# -gt 0 ]; then run_group "$@"; exit; fi
+run_group C01 C02 C03 C04 C05 &
+run_group C06 C07 C08 C09 C10 &
+run_group C11 C12 C13 C14 C15 &
+run_group C16 C17 C18 C19 C20 &
+wait
